@@ -118,7 +118,32 @@ fn interner_case<V: Ord + Clone + std::fmt::Debug>(rng: &mut Rng, rep: &mut Repo
 fn type_pool(rng: &mut Rng, n: usize) -> Vec<PType> {
     let cfg = Cfg::small(Mode::Arbitrary);
     let ids = IdGen { mode: Mode::WellFormed, shape: Shape::Any, n: 6 };
-    (0..n).map(|i| reggen::gen_type(rng, &cfg, &ids, i, None)).collect()
+    let mut pool: Vec<PType> = Vec::new();
+    while pool.len() < n {
+        let i = pool.len();
+        // half of the pool are single-edit neighbours of earlier members (one doc string, one name, one id,
+        // one index ... differs): values that are unequal but nearly equal must still get their own index
+        if !pool.is_empty() && rng.flip() {
+            let base = rng.pick(&pool).clone();
+            let reg = scale_info::PortableRegistry { types: vec![scale_info::PortableType::new(0, base)] };
+            let mut found = None;
+            for _ in 0..20 {
+                if let Some((r2, _)) = reggen::mutate(rng, &reg) {
+                    if r2.types.len() == 1 && r2.types[0].id == 0 && !pool.contains(&r2.types[0].ty) {
+                        found = Some(r2.types[0].ty.clone());
+                        break;
+                    }
+                }
+            }
+            if let Some(t) = found {
+                pool.push(t);
+                continue;
+            }
+        }
+        let force = if rng.chance(1, 3) { Some(rng.below(2)) } else { None };
+        pool.push(reggen::gen_type(rng, &cfg, &ids, i, force));
+    }
+    pool
 }
 
 /// One builder history. Returns hash of the op sequence. `prop` selects which oracles report.
